@@ -191,6 +191,10 @@ def apply_stage(stage, L, ctx):
         return E.insert_or_map_nth(L, p[0], lambda x, ctx=None: -x, ctx)
     if name == "map_alt":
         return E.wrap(L, lambda x, ctx=None: -x, ctx)
+    if name == "cumsum_sans_last":     # ÞR: needs the end of the list (probe only)
+        return E.cumul_sum_sans_last_prepend_zero(L, ctx)
+    if name == "tail_remove":          # Ṫ: needs the end of the list (probe only)
+        return E.tail_remove(L, ctx)
     raise KeyError(name)
 
 
@@ -510,17 +514,53 @@ def fit(points):
     b = p1 - a * n1
     if all(p == a * n + b for n, p in pts):
         return f"{a}*n{b:+d}" if b else f"{a}*n"
-    return "data-dependent " + str([p for _, p in pts[:10]])
+    return "not affine in n: " + str([p for _, p in pts[:10]])
 
 
 def probes_outside(env):
     """Calls that cannot be lazy by their parameters or by construction; recorded, not judged."""
-    items = [((0,), 1, (("windows", 0),), 1, "islice"), ((0,), 1, (("chunks", 0),), 1, "islice")]
-    res = V.pmap(measure, items, timeout=10.0, procs=1)
+    items = [((0,), 1, (("windows", 0),), 1, "islice"), ((0,), 1, (("chunks", 0),), 1, "islice"),
+             ((0,), 1, (("cumsum_sans_last",),), 1, "islice"), ((0,), 1, (("tail_remove",),), 1, "islice")]
+    res = V.pmap(measure, items, timeout=10.0)
     out = {}
     for it, (st, val) in zip(items, res):
         out[pname(it[2])] = "terminates" if st == "ok" else f"does not terminate ({st}: {val})"
     env.note("outside_the_quantifier", out)
+
+
+def judge(env, entries, results, cases, formula, hung):
+    """Oracle on one batch of measurements; fills cases (for the model) and hung (stages that did not terminate)."""
+    for idx, ((t, c, pl, n), (bound, expected)) in enumerate(entries):
+        inp = {"source": {"table": list(t), "shift": c}, "pipeline": [list(map(_jsonable, s)) for s in pl], "n": n}
+        name = pname(pl)
+        got = {}
+        for mode, (st, val) in zip(("islice", "index"), results[2 * idx:2 * idx + 2]):
+            if st == "timeout" or (st == "exc" and str(val).startswith("Runaway")):
+                how = "does not terminate (watchdog)" if st == "timeout" else f"pulled more than {CAP} items of the source (bound {bound})"
+                env.fail(dict(inp, mode=mode), f"taking {n} items of {name} of an infinite list {how}", cls=f"nonterminating:{name}")
+                if len(pl) == 1:
+                    hung.add(name)
+            elif st == "exc":
+                env.fail(dict(inp, mode=mode), f"taking {n} items of {name} raises {val}", cls=f"raises:{name}")
+            elif val[0] == "not-lazy":
+                env.fail(dict(inp, mode=mode), f"{name} of an infinite list returned a {val[1]}, not a lazy list", cls=f"not-lazy:{name}")
+            else:
+                got[mode] = val
+                pulls, outs = val
+                if pulls > bound:
+                    env.fail(dict(inp, mode=mode), f"{name}: {n} items pulled {pulls} items of the source, bound {bound}",
+                             cls=f"pulls-exceed:{name}", extra={"pulls": pulls, "bound": bound})
+                if outs != expected:
+                    env.fail(dict(inp, mode=mode), f"{name}: first {n} items are {str(outs)[:200]}, mathematically {str(expected)[:200]}",
+                             cls=f"outputs:{name}")
+        if len(got) == 2:
+            if got["islice"] != got["index"]:
+                env.fail(inp, f"{name}: iteration pulls {got['islice'][0]}, indexing pulls {got['index'][0]}", cls=f"modes-differ:{name}")
+            pulls, outs = got["islice"]
+            if not any(isinstance(x, str) for x in rleaves(outs)):
+                cases.append((t, c, pl, n, pulls, outs))
+            if len(pl) == 1:
+                formula.setdefault(name, {}).setdefault(str(list(t)) + "+" + str(c), []).append((n, pulls))
 
 
 def run_all(env, with_model=True):
@@ -529,14 +569,14 @@ def run_all(env, with_model=True):
     cat = catalogue()
     sources = make_sources(rng)
     pipelines = [(s,) for s in cat]
-    ncomp = env.budget(90, 360)
+    ncomp = env.budget(120, 900)
     seen = set(pipelines)
     for i in range(ncomp):
         pl = random_pipeline(rng, cat, 2 if i % 3 == 0 else 3)
         if pl not in seen:
             seen.add(pl)
             pipelines.append(pl)
-    # which n for which pipeline: singles all n <= N; compositions all n <= N on one source each
+    # singles: all n <= N on every source; compositions: all n <= N on one source each
     jobs = []            # (table, c, stages, N)
     for pl in pipelines:
         srcs = sources if len(pl) == 1 else [sources[rng.randrange(len(sources))]]
@@ -554,47 +594,27 @@ def run_all(env, with_model=True):
                 skipped += 1
             else:
                 admissible.append(((t, c, pl, n), e))
-    items = [(t, c, pl, n, mode) for ((t, c, pl, n), _) in admissible for mode in ("islice", "index")]
-    res = V.pmap(measure, items, timeout=env.budget(8.0, 15.0))
-    cases, formula = [], {}
-    nfail = 0
-    for idx, ((t, c, pl, n), (bound, expected)) in enumerate(admissible):
-        inp = {"source": {"table": list(t), "shift": c}, "pipeline": [list(map(_jsonable, s)) for s in pl], "n": n}
-        name = pname(pl)
-        got = {}
-        for mode, (st, val) in zip(("islice", "index"), res[2 * idx:2 * idx + 2]):
-            if st == "timeout":
-                env.fail(dict(inp, mode=mode), f"taking {n} items of {name} of an infinite list does not terminate (watchdog)",
-                         cls=f"nonterminating:{name}")
-            elif st == "exc" and str(val).startswith("Runaway"):
-                env.fail(dict(inp, mode=mode), f"taking {n} items of {name} of an infinite list pulled more than {CAP} items (bound {bound})",
-                         cls=f"nonterminating:{name}")
-            elif st == "exc":
-                env.fail(dict(inp, mode=mode), f"taking {n} items of {name} raises {val}", cls=f"raises:{name}")
-            elif val[0] == "not-lazy":
-                env.fail(dict(inp, mode=mode), f"{name} of an infinite list returned a {val[1]}, not a lazy list", cls=f"not-lazy:{name}")
-            else:
-                got[mode] = val
-                pulls, outs = val
-                if pulls > bound:
-                    env.fail(dict(inp, mode=mode), f"{name}: {n} items pulled {pulls} items of the source, bound {bound}", cls=f"pulls-exceed:{name}",
-                             extra={"pulls": pulls, "bound": bound})
-                if outs != expected:
-                    env.fail(dict(inp, mode=mode), f"{name}: first {n} items are {str(outs)[:200]}, mathematically {str(expected)[:200]}",
-                             cls=f"outputs:{name}")
-        if len(got) == 2:
-            if got["islice"] != got["index"]:
-                env.fail(inp, f"{name}: iteration pulls {got['islice'][0]}, indexing pulls {got['index'][0]}", cls=f"modes-differ:{name}")
-            pulls, outs = got["islice"]
-            if not any(isinstance(x, str) for x in rleaves(outs)):
-                cases.append((t, c, pl, n, pulls, outs))
-            if len(pl) == 1:
-                formula.setdefault(name, {}).setdefault(str(list(t)) + "+" + str(c), []).append((n, pulls))
-    env.count(len(items), (f"{t}+{c}:{pname(pl)}:{n}" for (t, c, pl, n, _m) in items if n >= 1))
+    # measured in three batches so that a stage that hangs is not waited for again and again
+    batches = [[e for e in admissible if len(e[0][2]) == 1 and e[0][3] <= 3],
+               [e for e in admissible if len(e[0][2]) == 1 and e[0][3] > 3],
+               [e for e in admissible if len(e[0][2]) > 1]]
+    cases, formula, hung, measured, not_rerun = [], {}, set(), [], 0
+    for batch in batches:
+        entries = [e for e in batch if not any(sname(s) in hung for s in e[0][2])]
+        entries.sort(key=lambda e: (e[0][3], e[0][0], e[0][1]))   # one stage's cases far apart: a hanging stage is waited for in parallel
+        not_rerun += len(batch) - len(entries)
+        items = [(t, c, pl, n, mode) for ((t, c, pl, n), _) in entries for mode in ("islice", "index")]
+        res = V.pmap(measure, items, timeout=env.budget(6.0, 12.0))
+        judge(env, entries, res, cases, formula, hung)
+        measured += items
+    env.count(len(measured), (f"{t}+{c}:{pname(pl)}:{n}" for (t, c, pl, n, _m) in measured if n >= 1))
     env.note("n_max", N)
     env.note("pipelines", {"single": len(cat), "compositions": len(pipelines) - len(cat),
                            "of_length_2": sum(1 for p in pipelines if len(p) == 2), "of_length_3": sum(1 for p in pipelines if len(p) == 3)})
     env.note("inadmissible_skipped", skipped)
+    if hung:
+        env.note("stages_that_did_not_terminate", sorted(hung))
+        env.note("cases_not_run_because_a_stage_hangs", not_rerun)
     env.note("sources", [{"table": list(t), "shift": c} for t, c in sources])
     env.note("measured_formula", {k: sorted({fit(v) for v in d.values()}) for k, d in sorted(formula.items())})
     comp_formula = {}
@@ -602,7 +622,8 @@ def run_all(env, with_model=True):
         if len(pl) > 1:
             comp_formula.setdefault(pname(pl), []).append((n, pulls))
     env.note("measured_formula_compositions_sample", {k: fit(v) for k, v in list(sorted(comp_formula.items()))[:25]})
-    for cse in (cases[len(cases) // 7], cases[len(cases) // 2], cases[-1]) if cases else ():
+    picks = [cs for cs in cases if cs[3] == min(N, 7)]
+    for cse in picks[::max(1, len(picks) // 8)][:8]:
         t, c, pl, n, pulls, outs = cse
         env.sample({"source": {"table": list(t), "shift": c}, "pipeline": pname(pl), "n": n, "pulls": pulls, "outputs": str(outs)[:160]})
     # model side
@@ -616,7 +637,7 @@ def run_all(env, with_model=True):
         for i in bad[:40]:
             t, c, pl, n, pulls, outs = cases[i]
             env.disagree("demand:" + pname(pl), {"source": {"table": list(t), "shift": c}, "pipeline": pname(pl), "n": n},
-                         model_answer(env, cases[i]), {"pulls": pulls, "outputs": str(outs)[:300]})
+                         model_answer(env, cases[i]) if i in bad[:6] else "(model disagrees)", {"pulls": pulls, "outputs": str(outs)[:300]})
         env.note("model_cases", len(cases))
     probes_outside(env)
 
